@@ -26,8 +26,8 @@ CLAIMS = {
              "the (line, column) of the key highlight and - for diagnostics whose first highlight is position-minimal - in the printed "
              "(line, column); both formats render the same sorted list and status; every token of every source text sits at a position "
              "inside the file (1 <= line <= 1 + newlines, column >= 1; engine diagnostics copy token positions); over the table of "
-             "all static emission sites regenerated from the source, every literal code is a catalogue key except four listed "
-             "ones (BAD_LEXEME: recorded finding) and no site has an opaque code.  Tied to the code by the translator, by exhaustive "
+             "all static emission sites regenerated from the source, every literal code is a catalogue key except three listed "
+             "ones (at sites that would raise KeyError if reached) and no site has an opaque code; BAD_LEXEME is in the catalogue.  Tied to the code by the translator, by exhaustive "
              "comparator correspondence on a small domain, byte-exact humanized-format correspondence, and by evaluating order, "
              "catalogue text, levels, positions and human/JSON agreement on the real reports of ~270 files.",
         ref="DESIGN.md 4.8", technique="Rocq proof over comparators regenerated from errors.py; differential + report search",
@@ -65,8 +65,9 @@ CLAIMS = {
              "fraction parts and every exponent sign, every escape form in character and string constants with every prefix, each "
              "followed by each delimiter: the first step of the lexer model yields ONE token of the right type spanning exactly the "
              "constant with no diagnostic; every member of the malformed families M1..M15 gets its diagnostic located in the "
-             "constant.  Proved by evaluating the model inside Coq on every member (vm_compute, bound in the statement).  Six shapes "
-             "of valid constants are refuted (witness theorems; known findings) and excluded by boolean guards.  The same families "
+             "constant.  Proved by evaluating the model inside Coq on every member (vm_compute, bound in the statement).  Three shapes "
+             "of valid constants are still refuted (witness theorems; known findings) and excluded by boolean guards; three were "
+             "repaired in the tool.  The same families "
              "are replayed on the implementation (model verdict compared = correspondence; expected verdict = the property), plus "
              "random constants with digit strings up to 14 and the exhaustive lexer correspondence on numeric/quote alphabets.  "
              "UNBOUNDED theorems (all Unicode class oracles, digit strings of any length, every table suffix, every delimiter "
@@ -74,7 +75,7 @@ CLAIMS = {
              "proved to exclude exactly the recorded shapes; decimal floating constants of every form (no guard); string literals of "
              "any length and character constants over plain characters, simple, octal and 1-2 digit hex escapes with every prefix "
              "(partial: no tab, no di/trigraph formed inside the literal - the general case is C10's token-text theorem); "
-             "hexadecimal floats under two guards implied by the complements of the recorded findings.  The tool's suffix tables "
+             "hexadecimal floats of every form (empty fraction or integer part, every suffix).  The tool's suffix tables "
              "are proved equal to the suffix grammar of the property text.",
         ref="DESIGN.md 4.11", technique="Rocq proof (unbounded induction for integer constants; complete evaluation over finite families by vm_compute) + differential lexing + family replay on the implementation",
         note=NOTE + "Modelled: lexer.py completely. Partial: the theorems are for bounded digit strings (the property's quantifier is "
